@@ -541,6 +541,21 @@ func (in *interp) render(fr *frame, v value, depth int) string {
 	return fmt.Sprintf("<%T>", v)
 }
 
+// lookupFunc finds a package-level function by its full name "pkgpath.Name".
+func (in *interp) lookupFunc(full string) *ssa.Function {
+	i := strings.LastIndex(full, ".")
+	if i < 0 {
+		return nil
+	}
+	pkgPath, name := full[:i], full[i+1:]
+	for _, p := range in.prog.AllPackages() {
+		if p.Pkg.Path() == pkgPath {
+			return p.Func(name)
+		}
+	}
+	return nil
+}
+
 // findMethod returns the exported method name of t, or nil.
 func (in *interp) findMethod(t types.Type, name string) *ssa.Function {
 	sel := in.prog.MethodSets.MethodSet(t).Lookup(nil, name)
@@ -1060,6 +1075,33 @@ func (in *interp) runStub(fr *frame, fi *fnInfo, args []value) value {
 			fmt.Sscan(parts[1], &n)
 		}
 		r := in.ufApply(fi.name, parts[0] == "ufinj", args, func() value {
+			return mk(func(t types.Type, i int) value { return in.freshOfType(t, "uf."+fi.name, n) })
+		})
+		return copyDeep(r)
+	case "redirect":
+		// redirect:<function name>: call another function (usually a harness function) with the same arguments
+		target := strings.Join(parts[1:], ":")
+		tf := in.lookupFunc(target)
+		if tf == nil {
+			in.unsupported("redirect target not found: " + target)
+		}
+		return in.callSSA(fr, 0, tf, args, nil)
+	case "injfield":
+		// injfield:<N>:<field>: injective function of field <field> of the struct the first argument points to
+		n, fld := 32, 0
+		fmt.Sscan(parts[1], &n)
+		if len(parts) > 2 {
+			fmt.Sscan(parts[2], &fld)
+		}
+		p, ok := args[0].(*value)
+		if !ok || p == nil {
+			in.rtPanic(fr.caller, "invalid memory address or nil pointer dereference")
+		}
+		st, ok := (*p).(structure)
+		if !ok {
+			in.unsupported("injfield: receiver is not a struct pointer")
+		}
+		r := in.ufApply(fi.name, true, []value{st[fld]}, func() value {
 			return mk(func(t types.Type, i int) value { return in.freshOfType(t, "uf."+fi.name, n) })
 		})
 		return copyDeep(r)
